@@ -3,5 +3,5 @@ CONSTANTS
  Parsers <- MC_Parsers
  Script <- MC_Script
  Variant = "global"
-INVARIANTS ExportBad SameAsAlone TableRestored
+INVARIANTS ExportBadTable TableFinal
 CHECK_DEADLOCK FALSE
